@@ -59,12 +59,12 @@ PROPS = {
     "C20": {
         "quick_ms": 15000,
         "thorough_ms": 240000,
-        "floors": {"plain.with_breaks": 5000, "plain.no_breaks": 500, "styled.with_breaks": 500, "styled.with_escapes": 250,
+        "floors": {"plain.with_breaks": 5000, "plain.no_breaks": 500, "styled.with_breaks": 500, "styled.with_escapes": 250, "plain.with_escapes": 250,
                    "plain.overlong_single_word": 50, "exhaustive.strings": 50000},
         "rule": "exhaustive: every string of <= 6 (quick) / 7 (thorough) symbols over {a, bb, ' ', '  ', LF, wide CJK, e+combining acute} "
                 "x widths 1..8 through textwrap::wrap (template `[{author}]`), one width each through StyledStr::wrap (`[{about}]`); "
                 "random: 1-60 words of 1-30 chars incl. wide, zero-width, combining, emoji, hyphens; multiple spaces, indented lines, "
-                "blank lines, 'space before LF'; widths 0..120; styled variant with SGR sequences between and inside words. "
+                "blank lines, 'space before LF'; widths 0..120; styled variant with SGR sequences between and inside words (also right in front of a word starting with `m`), sent through both wrappers. "
                 "Oracle: alignment walk (equal chars advance; otherwise a maximal space run is replaced by LF + the line's indent), "
                 "width bound on visible (right-trimmed) lines unless single word, width 0 = identity, escapes byte-identical in order. "
                 "distinct_nontrivial = distinct (text, width) hashes (cap 60k/shard).",
@@ -81,7 +81,7 @@ PROPS = {
         "thorough_ms": 240000,
         "floors": {"ranged.accepted": 5000, "ranged.rejected": 50000, "ranged.real_parse_ok": 500, "boolish.accepted": 25, "boolish.rejected": 25,
                    "falsey.accepted": 25, "possible.accepted": 500, "possible.rejected": 500, "access.downcast": 250, "access.unknown": 250,
-                   "access.removed": 250, "exhaustive.triples": 500000},
+                   "access.removed": 250, "access.present-without-values": 100, "exhaustive.triples": 500000},
         "rule": "exhaustive: for T in {i8,i16,i32,i64,u8,u16,u32} x ranges with bounds from {T::MIN, T::MIN+1, -1, 0, 1, T::MAX-1, T::MAX} "
                 "(plus, on a full-i64 base parser, T::MIN-3, T::MAX+3, i64::MIN, i64::MAX) x {inclusive, exclusive, unbounded} x candidate "
                 "values b+d (b in range bounds, T limits, i64/u64 limits, +-2^63, 2^64; d in -2..2) x spellings (plain, +, leading zeros, -0, "
@@ -90,7 +90,7 @@ PROPS = {
                 "Oracle: independent decimal model (no machine-integer parsing; i128 after a length check) intersected with range and type; "
                 "error kind and 'error names the argument'; every 7th (type,range) also through a real parse `--num=<s>`. "
                 "random: possible-value sets (aliases, hidden, ignore_case, non-ASCII names) x candidate strings; typed-access histories "
-                "(get_one/many, remove_one/many/occurrences, contains_id x right type/wrong type/unknown id) against a map model with a full "
+                "(get_one/many, remove_one/many/occurrences, contains_id x right type/wrong type/unknown id, incl. an argument present without any value) against a map model with a full "
                 "snapshot comparison after every step; random ranges x random digit strings. distinct_nontrivial = distinct (type,range) "
                 "configurations + distinct random cases.",
         "exhaustive_note": "the (type, range, candidate-string) boundary product is enumerated completely on every run",
@@ -129,9 +129,9 @@ PROPS = {
         "quick_ms": 15000,
         "thorough_ms": 240000,
         "floors": {"fold.ok": 10000, "repeat.rejected": 1000, "fold.count_saturated": 100, "fold.removed_by_override": 500,
-                   "fold.append_multi": 500, "seq.count_boundary": 250, "fold.empty-occurrence": 500},
+                   "fold.append_multi": 500, "seq.count_boundary": 250, "fold.empty-occurrence": 500, "depth.2": 5000},
         "rule": "1-4 arguments (Set/Append/SetTrue/SetFalse/Count, optional num_args 1..=2 or 0..=N with/without default_missing_value, delimiter, default) with a random override graph "
-                "(both declaration directions, self-overrides, args_override_self) x occurrence sequences of length 0..300 "
+                "(both declaration directions, self-overrides, args_override_self), living 0-2 subcommand levels below the command that declares args_override_self, x occurrence sequences of length 0..300 "
                 "(0, 1, 2, 254, 255, 256, 257, 300 always drawn; long runs focus one argument with others interleaved) x spellings "
                 "(clusters -vvvv/-ab, long, =, attached). Oracle: sequential fold model (Set: last or ArgumentConflict; Append: all "
                 "occurrences in order with boundaries, an occurrence without a value staying an (empty or default_missing) occurrence of its own; Count: min(n,255); flags: truth with opposite default and DefaultValue source when "
@@ -166,7 +166,7 @@ PROPS = {
         "thorough_ms": 240000,
         "floors": {"tail.ok": 10000, "tail.dash-tokens": 5000, "tail.after-values-before-escape": 2500, "tail.dont-delimit-with-delimiter": 500, "tail.terminator-declared": 2500},
         "rule": "conventional commands (options, flags, subcommands incl. flag subcommands, infer_*) whose tail level (root or a subcommand) ends in a "
-                "multi-valued positional `rest` (num_args 0.. / 1.., Set/Append, with/without last(true), with/without a leading single positional, "
+                "multi-valued positional `rest` (num_args 0.. / 1.., Set/Append, with/without last(true), with/without a leading single positional (sometimes with explicit indices and the higher index declared first), "
                 "String or OsString parser, optional delimiter, dont_delimit_trailing_values, optional value terminator `end` with/without ignore_case) x valid prefixes rendered from intents (any spelling; "
                 "may leave an option with satisfied minimum pending; a third of the time followed by 1-2 values for `rest` given before the `--`) x "
                 "tails of 0-5 hostile tokens (--help -h -V --version -- - \"\" help, delimiter-bearing tokens (`a,b` `,x` `y,` `,` `-Wl,-x`), every defined "
@@ -184,7 +184,7 @@ PROPS = {
         "thorough_ms": 240000,
         "floors": {"lattice.Cli": 10000, "lattice.Env": 5000, "lattice.Default": 5000, "lattice.absent": 2500, "lattice.default_if_fired": 1000,
                    "lattice.default_if_unset": 150, "lattice.default_missing_used": 1000, "verdict.err-as-expected": 1500,
-                   "lattice.flag-env-falsey-parser": 2500, "lattice.flag-env-empty": 150, "lattice.group.Some(Cli)": 2000, "lattice.group.Some(Env)": 500, "lattice.group.None": 1000, "lattice.group-conflict": 500},
+                   "lattice.global-redeclared.Cli": 500, "lattice.global-redeclared.Env": 500, "lattice.flag-env-falsey-parser": 2500, "lattice.flag-env-empty": 150, "lattice.group.Some(Cli)": 2000, "lattice.group.Some(Env)": 500, "lattice.group.None": 1000, "lattice.group-conflict": 500},
         "rule": "2-5 arguments each drawing a subset of {default_value(s), default_value_if(s) (IsPresent/Equals, Some/None default) on a plain "
                 "option, default_missing + num_args(0..=1) (+ require_equals), env (set/unset, delimiter-split), flags with env true/false or, with the Falsey parser, "
                 "any of {\"\", true, false, 0, no, off, x, yes, 1, FALSE, n, \" \"}} plus one "
@@ -193,7 +193,9 @@ PROPS = {
                 "(each argument absent / with value(s) / without value). Oracle: lattice model cli > env > first matching default-if > default > "
                 "absent for (value_source, raw occurrences / flag value), default_missing exactly when present without value, verdict "
                 "Ok / ArgumentConflict / MissingRequiredArgument / help-on-missing computed from *explicit* presence only, args_present(); the group is "
-                "present (contains_id, value_source = strongest source, member ids) exactly through its explicitly supplied members.",
+                "present (contains_id, value_source = strongest source, member ids) exactly through its explicitly supplied members. One case in six adds a "
+                "two-level check: a global with an environment variable whose id the invoked subcommand declares again with its own default must report "
+                "the strongest origin (command line at either level, else the environment) at both levels.",
         "assumptions": COMMON_ASSUME + ["default_value_if conditions refer only to arguments without (conditional) defaults of their own (otherwise the outcome depends on definition order, which the property does not fix)",
                                         "the process environment is private to the shard process; variables are set before the Command is built"],
         "technique": "reference-model monitor: precedence-lattice model over the product of sources, with injected environments",
@@ -223,7 +225,7 @@ PROPS = {
         "floors": {"result.ok": 10000, "result.err": 10000, "relevant.requirement-satisfied": 2500, "relevant.exempt-conflict": 500,
                    "relevant.exempt-exclusive": 100, "relevant.exempt-subcommand": 250, "relevant.conflict-half-present": 500, "argv.append-several-occurrences": 5000},
         "rule": "2-7 flags/options (Set or Append, defaults, env) + 0-2 groups (required/multiple/conflicts/requires) with random relation digraphs: conflicts_with "
-                "(args and groups), requires, requires_if(s), overrides (1/3 of cases, incl. chains and self), required, exclusive, "
+                "(args and groups), requires, requires_if(s) (the same target possibly named by several values and unconditionally), overrides (1/3 of cases, incl. chains and self), required, exclusive, "
                 "required_unless_present_any/_all, required_if_eq_any/_all, subcommand_negates_reqs / args_conflicts_with_subcommands x argv "
                 "supplying a uniformly sized random subset (with repeats under overrides; Append options 1-3 times with values from {v1,v2,v3}) + env. Oracle on every Ok: independent evaluator over "
                 "the explicitly present set (value_source in {CommandLine, EnvVariable}): declared conflicts both present, exclusive not alone, "
